@@ -155,14 +155,14 @@ Fixpoint find_kth (evs : list ev) (op : fsop) (k : nat) (i : nat) : option nat :
   end.
 
 Definition expected_trace (p : protocol) (new : bytes) (sys : fsop) (k : nat) (kind : Z) : option (list (fsop * Z)) :=
-  let clean := run new p [] fs0 in
+  let clean := run_proto new p [] fs0 in
   let pair (e : ev) := (eop e, if eok e then 0 else 1) in
   if Z.eqb kind 0 then Some (map pair clean)
   else match find_kth clean sys k 0%nat with
        | None => None
        | Some i =>
            if Z.eqb kind 3 then Some (map pair (firstn i clean) ++ [(sys, 2)])
-           else Some (map pair (run new p (repeat None i ++ [Some 0%nat]) fs0))
+           else Some (map pair (run_proto new p (repeat None i ++ [Some 0%nat]) fs0))
        end.
 
 Definition first_write (evs : list oev) : bytes :=
